@@ -1297,6 +1297,36 @@ fn fam_idxsig(_func: Option<&str>, only: Option<u64>) {
             }
         } }
     } }
+    // third part: three members on the right, and a left type with a declared property next to its index signature
+    for decl in [false, true] { for lt in 0..3usize {
+        let vt = || if lt == 0 { Runtype::string() } else if lt == 1 { Runtype::number() } else { strnum() };
+        let left = if decl {
+            Runtype::new(beff_core::ast::runtype::RuntypeKind::Object {
+                vs: BTreeMap::from_iter(vec![("a".to_string(), Runtype::string().required())]),
+                indexed_properties: Some(Box::new(beff_core::ast::runtype::IndexedProperty { key: Runtype::string(), value: vt().required() })),
+            })
+        } else { Runtype::record(Runtype::string(), vt().required()) };
+        let lm = |o: &Vec<(&'static str, bool)>| -> bool {
+            if decl {
+                // a: string declared (required); the other keys fall under the index signature
+                match o.iter().find(|(k, _)| *k == "a") { Some((_, isnum)) => { if *isnum { return false; } } None => return false }
+                o.iter().filter(|(k, _)| *k != "a").all(|(_, isnum)| lt == 2 || (*isnum == (lt == 1)))
+            } else { lmember(o, K::Str, lt) }
+        };
+        for s1 in &sigs { for s2 in &sigs { for s3 in &sigs {
+            if !rep.want() { continue; }
+            let spec = all_objs.iter().all(|o| !lm(o) || member(o, s1) || member(o, s2) || member(o, s3));
+            let right = Runtype::any_of(vec![mk_sig(s1), mk_sig(s2), mk_sig(s3)]);
+            let mut ctx = SemTypeContext::new();
+            let (Ok(ta), Ok(tb)) = (left.to_sem_type(&[], &mut ctx), right.to_sem_type(&[], &mut ctx)) else { continue };
+            if let Ok(r) = ta.is_subtype(&tb, &mut ctx) {
+                if r != spec {
+                    rep.fail(format!("{}{{[k: string]: {}}} <: {{[k: {:?}]: {:?}}} | {{[k: {:?}]: {:?}}} | {{[k: {:?}]: {:?}}}", if decl { "{a: string} & " } else { "" }, ["string", "number", "string | number"][lt], s1.0, s1.1, s2.0, s2.1, s3.0, s3.1),
+                        format!("is_subtype = {}", r), format!("{} (brute force over the 27 objects with keys a, xa, 1)", spec));
+                }
+            }
+        } } }
+    } }
     rep.print();
 }
 
